@@ -36,6 +36,7 @@ type HistCfg struct {
 	MaxSnaps  int
 	CustomCmp bool // some collections use non-default comparators
 	UseSetPct int  // percentage of Set() (random priority) instead of SetItem()
+	RotCmp    bool // comparators from one parameterised closure family; replaced while a collection is empty
 }
 
 // Hist is the running state of a generated history.
@@ -60,6 +61,9 @@ func NewHist(r *gen.R, cfg driver.Config, hc HistCfg, envName string) *Hist {
 		cmps[n] = model.CmpBytes
 		if hc.CustomCmp && i%2 == 1 {
 			cmps[n] = []model.Cmp{model.CmpRev, model.CmpLenLex}[r.Intn(2)]
+		}
+		if hc.RotCmp {
+			cmps[n] = model.Cmp(fmt.Sprintf("rot:%d", r.Range(1, 250)))
 		}
 		h.Keys[n] = gen.Keys(r, hc.NKeys, hc.KeyClass)
 	}
@@ -362,8 +366,19 @@ func (h *Hist) Step() {
 		if name != "" {
 			if len(e.M.Live.Colls[name].Items) > 0 {
 				h.Feat["setcoll-existing-nonempty"] = true
+			} else if h.Cfg.RotCmp {
+				// an empty collection may get ANY new comparator: it must really be installed
+				e.Cmps[name] = model.Cmp(fmt.Sprintf("rot:%d", r.Range(1, 250)))
+				h.Feat["comparator-replaced-while-empty"] = true
+				e.Stats["comparator-replaced-while-empty"]++
 			}
-			e.SetCollection(name, e.Cmps[name])
+			// (a non-empty collection keeps the comparator it is ordered by)
+			e.SetCollection(name, func() model.Cmp {
+				if c := e.M.Live.Colls[name]; len(c.Items) > 0 {
+					return c.Cmp
+				}
+				return e.Cmps[name]
+			}())
 		}
 	case 22:
 		if name != "" {
